@@ -807,6 +807,20 @@ def realise(facts, goal, model, tries=400, seed=0):
                 base[a.a[1].a[0]] = int(v) << c
     for n in bufs:
         blen.setdefault(n, 0)
+    # atoms that are bit-exact functions of buffer octets (masks, shifts, multi-octet fields): assign those bits
+    from .bits import norm_bits, BitCtx
+    for a, v in (model or {}).items():
+        if a.k in ("op",) and isinstance(v, int) and v >= 0:
+            bv = norm_bits(a, BitCtx())
+            if bv is None or bv.ext != 0:
+                continue
+            if all(b in (0, 1) or (isinstance(b, tuple) and b[0] == "d" and isinstance(b[2], int)) for b in bv.bits):
+                for i, b in enumerate(bv.bits):
+                    if isinstance(b, tuple):
+                        key = (b[1], b[2])
+                        cur = fixed.get(key, 0)
+                        bit = (int(v) >> i) & 1
+                        fixed[key] = (cur & ~(1 << b[3])) | (bit << b[3])
     for a, v in (model or {}).items():
         if a.k == "idx" and a.a[0].k == "sym" and a.a[1].k == "const" and isinstance(a.a[1].a[0], int):
             fixed[(a.a[0].a[0], a.a[1].a[0])] = int(v) & 0xFF
